@@ -291,7 +291,7 @@ def max_step_chain(reg, src):
 def run(tier):
     R = common.Run(PID, "proof", tier)
     R.assume("A1", "A2", "A3")
-    R.assume("OdeSystem.__init__ is represented by its contract (Rep holds, trajectory is the initial point, dt oriented toward tf, settings stored); integrate and __getitem__ by the contracts proved in C03 / C19")
+    R.assume("inside solve_ivp the OdeSystem is represented by the construction contract (Rep holds, trajectory is the initial point, dt oriented toward tf, settings stored), which is proved in this same run from the real text of OdeSystem.__init__ (props/ctor.py); integrate and __getitem__ by the contracts proved in C03 / C19")
     R.assume("inspect.getfullargspec returns the parameter names of the user function in order (assumed); numpy.sort / transpose have their documented meaning (A3)")
     R.assume("shapes (n_t,) and (*state_shape, n_t) for n-d states, dtypes, and agreement with scipy.integrate.solve_ivp are a bounded native family only")
     R.trust("z3", "pyvc executor")
@@ -302,6 +302,10 @@ def run(tier):
     try:
         R.under_contract(check_facade(reg, src))
         R.under_contract(max_step_chain(reg, src))
+        from . import ctor
+        for fi in IC.verify_helpers(src, reg, PID):
+            R.under_contract(fi)
+        R.under_contract(ctor.check_ode_init(reg, src, PID)[0])
     except Unsupported as e:
         reg.undecided(PID + "/executor/unsupported", "unsupported", "executor", str(e))
     for ob in list(reg.obligations):
